@@ -12,7 +12,7 @@ META = dict(
     text="every item list over the boundary length alphabet (<=3 items), every expected-filter subset, every byte "
     "string up to length L over the structurally distinct symbols, every truncation/substitution of boundary "
     "encodings and every 1..4-piece split of a BLE pairing reply are run through TLV.encode_list/decode_* "
-    "and ble _pairing_char_write and compared with a reference TLV8 codec written from the HAP text Decoders are also compared across argument types (bytes / bytearray) and repetition on the same buffer (no aliasing of the caller's buffer); BLE pairing fragments also travel through drive_pairing_state_machine with expected-type lists. Also: every byte string up to 4 (6) symbols through five filters against a reference (a cut-off item of an expected type must raise; an empty filter filters nothing); streamed BLE pairing replies broken off by a plain one; damaged / oddly chunked HAP-Param-Value wrappers. Also: every number of fragments 2..50 of a pair-setup M2 sized reply (even and front-loaded cuts, empty closing fragment). The caller's buffer can still be resized while the result / the error of a decode call is kept.",
+    "and ble _pairing_char_write and compared with a reference TLV8 codec written from the HAP text Decoders are also compared across argument types (bytes / bytearray) and repetition on the same buffer (no aliasing of the caller's buffer); BLE pairing fragments also travel through drive_pairing_state_machine with expected-type lists. Also: every byte string up to 4 (6) symbols through five filters against a reference (a cut-off item of an expected type must raise; an empty filter filters nothing); streamed BLE pairing replies broken off by a plain one; damaged / oddly chunked HAP-Param-Value wrappers. Also: every number of fragments 2..50 of a pair-setup M2 sized reply (even and front-loaded cuts, empty closing fragment). The caller's buffer can still be resized while the result / the error of a decode call is kept. Also values that are TLVs of TLVs up to 1000 levels deep.",
     note="reference codec is trusted (cross-checked against HAP examples in selftest); byte strings outside the "
     "symbol alphabet and lists longer than 3 items are not covered",
     design_ref="DESIGN.md §4 C15",
